@@ -1,6 +1,6 @@
 (** Pinned statements of the C07 property theorems: compiled on every check, so a theorem cannot be
     weakened silently. *)
-From V Require Import Base.Util Gql.Ast Peg.Peg Gen.C07_grammar_gen C07.Builder C07.Model C07.AstEq C07.Spec C07.Proofs C07.Lexical C07.Strings C07.Numbers C07.Fuel C07.Shapes C07.Render C07.RenderValues C07.RenderArgs C07.Properties.
+From V Require Import Base.Util Gql.Ast Peg.Peg Gen.C07_grammar_gen C07.Builder C07.Model C07.AstEq C07.Spec C07.Proofs C07.Lexical C07.Strings C07.Numbers C07.Fuel C07.Shapes C07.Render C07.RenderValues C07.RenderArgs C07.RenderDirs C07.Properties.
 From V Require Import Peg.PegShape.
 From V Require Import Peg.PegProps.
 
@@ -116,6 +116,14 @@ Check (C07_parse_render_directive_noargs : forall g n w pre k file,
   let t := Pair R_Directive i (i + slen (dir_text0 g n w))%N [Pair R_Name (i + 1 + slen g)%N (i + 1 + slen g + slen n)%N []] in
   runs gql_grammar true ANon (Call R_Directive) (dir_text0 g n w ++ k) i (Ok (k, (i + slen (dir_text0 g n w))%N, [t]))
   /\ exists d, build_directive_fn (pre ++ dir_text0 g n w ++ k) file t = BOk d /\ iname (dir_name d) = n /\ dir_args d = None).
+Check (C07_parse_render_directives : forall d ds k, forallb rdir_wf (d :: ds) = true -> follow_dirs (d :: ds) k ->
+  exists g2 m, ws g2 = true /\ (m + slen g2 = slen (dirs_text (d :: ds)))%N /\
+    forall pre file,
+    let inp := pre ++ dirs_text (d :: ds) ++ k in
+    let i := slen pre in
+    let t := Pair R_Directives i (i + m)%N (items_trees (map rdir_item (d :: ds)) i) in
+    runs gql_grammar true ANon (Call R_Directives) (dirs_text (d :: ds) ++ k) i (Ok (g2 ++ k, (i + m)%N, [t]))
+    /\ exists l, build_directives inp file t = BOk l /\ map dir_erase l = map rdir_erase (d :: ds)).
 Print Assumptions C07_positions_true.
 Print Assumptions C07_lone_cr_refuted.
 Print Assumptions C07_block_string_refuted.
@@ -140,3 +148,4 @@ Print Assumptions C07_float_lex.
 Print Assumptions C07_parse_render_arguments.
 Print Assumptions C07_parse_render_directive_args.
 Print Assumptions C07_parse_render_directive_noargs.
+Print Assumptions C07_parse_render_directives.
